@@ -91,3 +91,13 @@ Theorem C09_consume_closed_form : forall b now n,
   wfp b -> consume b now n = Ok (cons_bucket b now n, cons_result b now n).
 Proof. exact consume_eq. Qed.
 Print Assumptions C09_consume_closed_form.
+
+(* Every ClientRateLimit either is rejected (rate below 10 B/s or burst 0) or
+   yields a full bucket with a 100 ms period inside the proved range. *)
+Theorem C09_from_config_wf : forall now c,
+  (exists e, from_config now c = Err e) \/
+  from_config now c = Ok None \/
+  (exists b, from_config now c = Ok (Some b) /\ wfp b /\ fill b = bmax b /\ 0 < bmax b /\
+             last_fill b = now /\ period b = PER100).
+Proof. exact from_config_cases. Qed.
+Print Assumptions C09_from_config_wf.
